@@ -94,6 +94,13 @@ def realval(v):
         return z3.RealVal(v)
     if v != v or v in (float("inf"), float("-inf")):
         raise Unsupported("non-finite float constant in real arithmetic")
+    # A1: a float constant stands for the simple rational it was computed from (4.0/3.0 -> 4/3) when one
+    # with a small denominator rounds to exactly this float; otherwise its exact decimal expansion
+    from fractions import Fraction
+
+    fr = Fraction(float(v)).limit_denominator(10**6)
+    if float(fr) == float(v):
+        return z3.RealVal(fr.numerator) / z3.RealVal(fr.denominator) if fr.denominator != 1 else z3.RealVal(fr.numerator)
     return z3.RealVal(repr(float(v)))
 
 
@@ -465,11 +472,15 @@ class Ctx:
         s.add(f)
         return s.check() != z3.unsat
 
-    def oblige(self, name, goal, hyps=(), kind="post", meta=None):
-        """record obligation: pc (now) + all axioms (at discharge time) + hyps => goal"""
+    def oblige(self, name, goal, hyps=(), kind="post", meta=None, pure=False):
+        """record obligation: pc (now) + all axioms (at discharge time) + hyps => goal
+        pure: a closed lemma -- only `hyps` are used (no path condition, no context axioms)"""
         if isinstance(goal, bool):
             goal = z3.BoolVal(goal)
-        self.obligations.append(Obligation(name, kind, list(self.pc) + list(hyps), goal, self.loc, meta))
+        meta = dict(meta or {})
+        if pure:
+            meta["pure"] = True
+        self.obligations.append(Obligation(name, kind, (list(hyps) if pure else list(self.pc) + list(hyps)), goal, self.loc, meta))
 
     def safety(self, kind, goal, hyps=(), what=""):
         """safety obligation at the current source location; returns True if entailed right away"""
